@@ -12,9 +12,16 @@ CONFIGS = [
     ("size_one_cold", [1, 1, 1, 1, 1, 1], True),
     ("asymmetric_warm", [64, 0, 1, 64, 0, 1], False),
 ]
+# pool-mode twins (second part): the same pool scenario with the verification cache warm / emptied before every task poll
+# and before every chain verify step, store read caches default / all off
+POOL_CONFIGS = [
+    ("pool_warm_defaults", None, False),
+    ("pool_cold_all_off", [0, 0, 0, 0, 0, 0], True),
+    ("pool_cold_defaults", None, True),
+]
 ASSUMPTIONS = [
     "twin nodes are separate OS processes fed the same scenario; BlockExt.received_at is excluded from the comparison",
-    "the verify cache is exercised through block import (the same transaction verified on two branches, with identical and with swapped witnesses); the pool-then-block path is covered by the pool engine's C13 runs, not compared twin-wise here",
+    "first part (chain mode): the verify cache is exercised through block import (the same transaction verified on two branches, with identical and with swapped witnesses). Second part (pool mode): the same transaction is verified first by the pool (local submission, remote submission through the verify queue, re-verification after a reorganisation) and later by block verification when a template or another miner's block commits it, on competing branches and at other commit positions; the twins run the same task schedule (yield points do not depend on cache hits) and every submission result with its cycles, every pool content at rest with recorded cycles / fees / aggregates, every template byte for byte, every block verdict and every main-chain BlockExt (fees, cycles) must be identical",
     "SYSTEM_CELL (process-global OnceLock) is unset in every twin: not compared set vs unset",
     "one scenario in three hands its first 3-25 first-time deliveries of valid-chain blocks to the chain service with Switch::DISABLE_SCRIPT, as the node does before its assume-valid target; blocks that are invalid by construction are always delivered with full verification (assume-valid concerns the trusted chain only)",
     "snapshot readers: in two scenarios out of three one to three snapshots are captured at arbitrary points, asked for the header and the whole block of EVERY block of the scenario by hash (blocks they cannot know yet included, as an RPC client may ask), and asked again later and at the end: a snapshot never panics and answers as it did when it was taken (reported only when the run has nothing else to report)",
@@ -35,7 +42,7 @@ def run(tier, args):
         body = json.load(open(args.replay))
         scs = body["scenario"]["twins"]
         res = [nc.exec_scenario(s) for s in scs]
-        v = compare(res)
+        v = compare(res, POOL_CONFIGS if scs[0].get("kind") == "pool" else CONFIGS)
         for r in res:
             if r.get("violation"):
                 v = v or r["violation"]
@@ -77,6 +84,46 @@ def run(tier, args):
                 failing.append((sc, twins, v))
             if len(agg.samples) < 2:
                 agg.samples.append({"seed": sc["seed"], "cfg": sc["cfg"], "ops_head": sc["ops"][:20], "configs": [c[0] for c in CONFIGS], "digest_head": (res[0].get("extra") or {}).get("c14", [])[:6]})
+    # second part: pool-mode twins
+    pool_compared = 0
+    pool_labels = 0
+    if not args.seeds or os.environ.get("C14_POOL_SEEDS"):
+        n2 = 150 if tier == "quick" else 9000
+        lo2 = seed_lo(1414)
+        if os.environ.get("C14_POOL_SEEDS"):
+            a, b = os.environ["C14_POOL_SEEDS"].split("..")
+            lo2, n2 = int(a), int(b) - int(a)
+
+        def one_pool(seed):
+            sc, _ = run_json([nc.BIN, "pool-gen", "--seed", str(seed), "--prop", PROP], env=nc._env(), timeout=120)
+            twins = [variant(sc, c, cold) for (_, c, cold) in POOL_CONFIGS]
+            res = [nc.exec_scenario(t) for t in twins]
+            return sc, twins, res
+
+        # determinism of the pool twins themselves: the same twin twice
+        for s in range(lo2, lo2 + 2):
+            _, tw, r1 = one_pool(s)
+            r2 = [nc.exec_scenario(t) for t in tw]
+            if [x.get("log_hash") for x in r1] != [x.get("log_hash") for x in r2] or [(x.get("extra") or {}).get("c14") for x in r1] != [(x.get("extra") or {}).get("c14") for x in r2]:
+                log(f"determinism self-check failed for pool twin seed {s}")
+                return 2
+        with ThreadPoolExecutor(8) as ex:
+            for sc, twins, res in ex.map(one_pool, range(lo2, lo2 + n2)):
+                for r in res:
+                    agg.add(r)
+                bad = [r["violation"] for r in res if r.get("violation")]
+                unknown_bad = [x for x in bad if not match_known(PROP, x["class"])]
+                v = unknown_bad[0] if unknown_bad else (compare(res, POOL_CONFIGS) or (bad[0] if bad else None))
+                if v and v["class"].startswith("answer_differs") and not pool_difference_is_stable(twins):
+                    # the answers follow the process's hash seeds (order of a HashSet somewhere), not the cache configuration
+                    agg.probes["pool_twin_difference_follows_hash_seed_not_caches"] = agg.probes.get("pool_twin_difference_follows_hash_seed_not_caches", 0) + 1
+                    v = None
+                pool_compared += 1
+                pool_labels += len((res[0].get("extra") or {}).get("c14", []))
+                if v:
+                    failing.append((sc, twins, v))
+                if pool_compared == 1:
+                    agg.samples.append({"seed": sc["seed"], "pool": sc["pool"], "ops_head": sc["ops"][:20], "configs": [c[0] for c in POOL_CONFIGS], "digest_head": (res[0].get("extra") or {}).get("c14", [])[:6]})
     if agg.harness:
         log("harness errors:", agg.harness[:3])
         return 2
@@ -99,7 +146,7 @@ def run(tier, args):
             rs = [nc.exec_scenario(t) for t in ts]
             b = [r["violation"] for r in rs if r.get("violation")]
             ub = [x for x in b if not match_known(PROP, x["class"])]
-            vv = ub[0] if ub else (compare(rs) or (b[0] if b else None))
+            vv = ub[0] if ub else (compare(rs, POOL_CONFIGS if sc.get("kind") == "pool" else CONFIGS) or (b[0] if b else None))
             return bool(vv) and vv["class"] == vclass
         calls = [0]
         def budgeted(ops):
@@ -115,13 +162,30 @@ def run(tier, args):
     wall = time.time() - t0
     cov = nc.evidence_cov(agg, wall,
         "one evaluation = one simulated run; each seeded scenario (block tree with rich transaction graphs, the same transaction committed on competing branches, witness-dependent locks whose valid and failing-witness variants share one tx hash, single-rule-invalid blocks that get stored and deleted, duplicates, orphan-first deliveries) is executed by FOUR twin nodes that differ only in cache configuration (store read caches default / all 0 / all 1 / mixed; transaction verification cache warm or emptied before every verify step); every block verdict, every BlockExt (minus received_at) and the answers of header/uncles/proposals/extension/tx-hashes/body/number/main-chain/epoch-index/block/tx-info/cell-data queries for every block ever delivered (including deleted invalid ones) must be identical across the twins, and no failing-witness variant may ever be attached. distinct = hash of the executed operation sequence; non-trivial = run with a reorganisation or orphan-first delivery",
-        {"twin_groups_compared": compared, "answers_compared_per_twin_total": labels_compared, "cache_configurations": [c[0] for c in CONFIGS]})
+        {"twin_groups_compared": compared, "answers_compared_per_twin_total": labels_compared, "cache_configurations": [c[0] for c in CONFIGS],
+         "pool_twin_groups_compared": pool_compared, "pool_answers_compared_per_twin_total": pool_labels, "pool_cache_configurations": [c[0] for c in POOL_CONFIGS]})
     write_evidence(PROP, tier, "exploration", cov, wall, unknown, ASSUMPTIONS)
-    log(f"[{PROP}] {compared} scenarios x {len(CONFIGS)} twins, {len(failing)} failing, {wall:.0f}s")
+    log(f"[{PROP}] {compared} scenarios x {len(CONFIGS)} twins + {pool_compared} pool scenarios x {len(POOL_CONFIGS)} twins, {len(failing)} failing, {wall:.0f}s")
     return 1 if unknown else 0
 
 
-def compare(res):
+def pool_difference_is_stable(twins, k=6):
+    """A difference between cache twins is attributed to the caches only if it does not follow the
+    process's HashMap seeds: under k other hash seeds every configuration must keep answering the
+    same way with itself, and the configurations must keep differing from each other."""
+    per_cfg = [set() for _ in twins]
+    for j in range(1, k + 1):
+        rs = [nc.exec_scenario(t, hash_seed=t["seed"] + 7919 * j) for t in twins]
+        if any(r.get("harness_error") for r in rs):
+            return False
+        for c, r in zip(per_cfg, rs):
+            c.add(json.dumps((r.get("extra") or {}).get("c14"), sort_keys=True))
+        if compare(rs, POOL_CONFIGS) is None:
+            return False
+    return all(len(c) == 1 for c in per_cfg)
+
+
+def compare(res, CONFIGS=CONFIGS):
     base = (res[0].get("extra") or {}).get("c14")
     if base is None:
         return None
